@@ -3,8 +3,41 @@ import os
 from vlib import Case, Stream, BUILD, model_cmd
 
 ID = "C11"
-LEAN_MODULES = ["HgVerif.Props.C11"]
+LEAN_MODULES = ["HgVerif.Props.C11", "HgVerif.Props.C11Inc", "HgVerif.Model.Slots"]
 THEOREMS = [
+    # incremental part (Props/C11Inc.lean): cached combiner outputs, evaluation candidates
+    "HgVerif.ReduceInc.cacheInv_init",
+    "HgVerif.ReduceInc.cacheInv_step",
+    "HgVerif.ReduceInc.cacheInv_reachable",
+    "HgVerif.ReduceInc.cached_combiner_eq_fold",
+    "HgVerif.ReduceInc.cached_root_eq_fold",
+    "HgVerif.ReduceInc.cached_root_eq_rootOut",
+    "HgVerif.ReduceInc.reachable_out_eq_fold",
+    "HgVerif.ReduceInc.mem_evaluated_iff",
+    "HgVerif.ReduceInc.mem_evaluated_full",
+    "HgVerif.ReduceInc.structural_iff_interval",
+    "HgVerif.ReduceInc.ticked_iff_interval",
+    "HgVerif.ReduceInc.recorded_covers_changed",
+    "HgVerif.ReduceInc.unevaluated_unchanged",
+    "HgVerif.ReduceInc.retired_or_live",
+    # generic child-graph path: links, schedules, cached outputs
+    "HgVerif.ReduceInc.genInv_init",
+    "HgVerif.ReduceInc.genInv_step",
+    "HgVerif.ReduceInc.genInv_reachable",
+    "HgVerif.ReduceInc.generic_links_current",
+    "HgVerif.ReduceInc.generic_no_pending",
+    "HgVerif.ReduceInc.generic_cached_combiner_eq_fold",
+    "HgVerif.ReduceInc.generic_root_eq_fold",
+    "HgVerif.ReduceInc.generic_tree_eq_lifted",
+    "HgVerif.ReduceInc.generic_out_eq_lifted_out",
+    "HgVerif.ReduceInc.generic_evaluated_candidates",
+    "HgVerif.ReduceInc.Witness.witness_s75_breaks_cacheInv",
+    "HgVerif.ReduceInc.Witness.witness_s75_wrong_root",
+    "HgVerif.ReduceInc.Witness.witness_s75_stale_link",
+    "HgVerif.ReduceInc.Witness.witness_s75_breaks_genInv",
+    "HgVerif.ReduceInc.Witness.witness_s21_breaks_cacheInv",
+    "HgVerif.ReduceInc.Witness.witness_s21_wrong_root",
+    # tree algebra (Props/C11.lean)
     "HgVerif.Reduce.resolve_closed_eq_rec",
     "HgVerif.Reduce.tree_value_eq_fold",
     "HgVerif.Reduce.zero_contract",
@@ -23,30 +56,69 @@ THEOREMS = [
 CXX_TARGETS = ["hgv_reduce"]
 RULE = ("key/element histories replayed into a REAL graph replay -> reduce(comb[, zero]) -> record over TSD<int,TS<int>>, "
         "dynamic TSL and fixed TSL<N>; combiners add_ (operator, lifted kernel), max_ (operator), a sub-graph lhs+rhs, a "
-        "node lhs+rhs+100; no zero / live time-series zero / scalar zero. A case is non-trivial when it reaches >= 3 live "
-        "elements and contains a removal or an update of a live element (TSL: >= 3 valid elements and a re-tick); "
-        "distinct by sha1 of the case body")
-TRUSTED = ["TSD/TSL slot stores, replay/record nodes and forwarding outputs are taken as given (C04/C05/C13/C20)",
-           "dense leaf order inside one cycle is the TSD delta-chain order; the theorems hold for every order"]
+        "node lhs+rhs+100 that LOGS every evaluation (operand pair): besides the result, the per-cycle multiset of "
+        "combiner evaluations of the real node is compared with the model's evaluation pass; no zero / live time-series "
+        "zero / scalar zero. A case is non-trivial when it reaches >= 3 live elements and contains a removal or an "
+        "update of a live element (TSL: >= 3 valid elements and a re-tick); distinct by sha1 of the case body")
+TRUSTED = ["TSD/TSL slot stores, replay/record nodes and forwarding outputs are taken as given (C04/C05/C13/C20); the model "
+           "driver replays the TSD delta into the C05 slot-store model (Model/Slots.lean) because the reduce node visits "
+           "removed / added / modified keys in slot order",
+           "dense leaf order inside one cycle is the TSD delta-chain (slot) order; the result theorems hold for every order"]
 ASSUMPTIONS = ["the combiner is associative (and commutative for order independence); a non-associative combiner is "
                "outside the property (is_associative=false selects a different node)",
                "the collection and zero sources do not re-point (no switch_/REF upstream of reduce in the harness graph)",
-               "a live time-series zero has ticked before it is needed (the generator ticks it in cycle 0)",
+               "a live time-series zero has ticked before it is needed (the generator ticks it in cycle 0); the cache "
+               "invariant claims nothing about the singleton root while the zero is not valid (excluded point: a root "
+               "combiner that existed with two operands keeps its old output when the collection shrinks to one element "
+               "and the zero has never ticked - replay in the evidence notes)",
+               "InputsOK (Props/C11Inc): an element whose slot is not in the modified set kept its value, the zero kept "
+               "its value unless it ticked, leaves are valid elements, a modified slot implies a collection tick",
+               "no combiner schedules itself for a future time (has_future_combiner_schedule = false) and no combiner "
+               "pauses (mesh inside the reduce function): outside the model",
                "memory safety of the two combiner banks under churn (ASan) is not expressible in the model: partial"]
 TECHNIQUE = ("Lean 4 proof (tree algebra of the heap-indexed dense-prefix reduction tree: closed-form position resolution "
              "= recursive definition, root value = fold by induction on height, invariants over all add/remove "
-             "histories) with differential correspondence against a real reduce graph")
+             "histories; incremental part: an inductive cache invariant over all histories of cycles, proved through a "
+             "descending-pass lemma and a 'nothing changed below a non-candidate' lemma) with differential correspondence "
+             "against a real reduce graph, including the set of combiner evaluations per cycle")
 LEVEL_TEXT = ("Kernel-checked for an arbitrary carrier and an arbitrary associative (commutative) combiner: the closed "
               "form of resolve_aggregate equals the recursive definition for every capacity 2^k, live count and "
               "position; the published root value equals the left fold over the dense leaves for every power-of-two "
               "capacity >= live count; the zero contract for 0/1/>=2 live values; order/capacity independence; the "
               "representation invariant (combiners = needed positions, capacity a power of two >= live count, keys "
               "distinct) holds after every history of reduce-node evaluations, including the incremental "
-              "structural-position update; live combiners = max(n-1,[n=1 and zero]). The model is tied to the code by "
-              "running the real node on generated histories.")
-LEVEL_NOTE = ("Partial: which cached combiner outputs are re-evaluated on a value tick, the link re-binding of generic "
-              "combiner graphs and the keyed publication snapshot are not modelled; they are observed through the "
-              "recorded results only (monitor + correspondence). Memory safety under bank swaps is outside the model.")
+              "structural-position update; live combiners = max(n-1,[n=1 and zero]). INCREMENTAL PART, as coded "
+              "(record_removed_leaf_paths incl. the moved tail leaf, remove_leaf_at compaction, structural_positions, "
+              "phase 1 create/retire, bank swap = all fresh, prepare_reduce_evaluation_positions incl. full_scan / "
+              "structural positions / modified-leaf paths / zero rule, the descending evaluation loop reading cached "
+              "children): the inductive invariant CacheInv - after every cycle the CACHED output of every live combiner "
+              "is the fold over the leaves of its interval - holds for init, is preserved by every cycle (any batch of "
+              "removals incl. non-tail keys, additions, value ticks, zero ticks; sparse / full reconcile; incremental / "
+              "full rebuild / capacity growth) and hence in every reachable state; the root published from the cache "
+              "is the fold over exactly the live elements and equals the ideal root of the tree algebra; the set of "
+              "combiners re-evaluated in a cycle is exactly the live ancestors (positions whose leaf interval holds the "
+              "leaf) of the recorded structural leaves and of the leaves of the modified slots (+ zero rule / full "
+              "pass), the recorded leaves cover every dense leaf whose key changed, a combiner that is not re-evaluated "
+              "saw no key change and no tick below it, and a combiner that existed before is retired or still there. "
+              "GENERIC PATH: GenInv (cache invariant + links of every live combiner = current resolution by key / position + no "
+              "pending schedule) holds for init, every cycle and every reachable state; only candidates run; both paths "
+              "publish the same fold. Kernel-evaluated WITNESSES (tests on one concrete history, not theorems): the seeded rules s75 (tail path "
+              "not recorded) and s10/s21 (tick paths skipped after a rebuild) break CacheInv and publish 382 for 254 / "
+              "261 for 1229. The model is tied to the code by running the real node on generated histories and "
+              "comparing results AND the multiset of combiner evaluations (operand pairs) of every cycle.")
+LEVEL_NOTE = ("Both evaluation paths are proved: the lifted-kernel path (cycleL: an evaluated combiner reads the CURRENT "
+              "resolution of its children) by CacheInv, and the generic child-graph path (cycleG: inputs linked at the last "
+              "re-bind of the position, tick notifications through the standing links, sampled re-bind only where the "
+              "source changed, start of created combiners, a candidate runs only when scheduled and schedules the "
+              "combiners linked to it) by GenInv = CacheInv + 'every live combiner is linked to what its child aggregates "
+              "resolve to now' + 'no schedule is pending'; hence the link re-binding of generic combiner graphs and which "
+              "cached outputs are refreshed are no longer merely observed. The generic model is additionally tied to the "
+              "real node by the per-cycle multiset of combiner evaluations (operand pairs) of the logging node combiner. "
+              "Partial / outside the model: the keyed publication snapshot (TSD/TSS-valued results), re-pointing "
+              "collection / zero sources, pause/resume and self-scheduling combiners (has_future_combiner_schedule), the "
+              "validity fine print of the sampled re-bind notification; the singleton root while a supplied zero has "
+              "never ticked (excluded point, tagged [C11-zero-unset] by the monitor when presented); memory safety "
+              "under bank swaps.")
 
 FIXED_SIZES = [1, 2, 3, 4, 5, 8, 9, 16, 17]
 
@@ -141,7 +213,7 @@ class _Hist:
 def gen_tsd(rng, idx, comb, zero, tier):
     h = _Hist(rng, "tsd", zero, tier)
     zt = (lambda first=False: (rng.choice([1000, 2000, 0, -5, 77]) if (first or rng.random() < 0.15) else None)) if zero == "ts" else (lambda first=False: None)
-    scenario = rng.choice(["walk", "walk", "growshrink", "burst", "boundary"])
+    scenario = rng.choice(["walk", "walk", "growshrink", "burst", "boundary", "fulltree", "fulltree"])
     maxn = rng.choice([3, 5, 9, 17] if tier == "quick" else [5, 9, 17, 33, 65])
     # cycle 0
     first = rng.random()
@@ -170,6 +242,51 @@ def gen_tsd(rng, idx, comb, zero, tier):
             h.cycle(ops, zt())
             h.cycle(h.update_ops(rng.randint(1, 3), set()), zt())
             h.cycle(h.remove_ops(rng.randint(1, max(1, len(h.live))), set()), zt())
+    elif scenario == "fulltree":
+        # the incremental-bookkeeping situation (seed s75): a completely filled tree (8 / 16 leaves; in a tree of
+        # width 16 also 12, 14, 15), built in some arrival pattern (which fixes the dense leaf order), possibly
+        # permuted by earlier swap-removals; then ONE key that is not the tail leaf is removed - preferably an
+        # early arrival, which sits in the other half of the tree from the tail - and NOTHING ticks afterwards
+        target = rng.choice([8, 8, 8, 16, 12] if tier == "quick" else [8, 8, 16, 16, 12, 14, 15, 32])
+        arrival = rng.choice(["one", "chunks", "single", "chunks"])
+        while len(h.live) < target:
+            room = target - len(h.live)
+            k = room if arrival == "one" else 1 if arrival == "single" else rng.randint(1, min(room, 5))
+            ops, used = h.add_ops(k)
+            h.cycle(ops, zt())
+            if len(h.live) >= 3 and len(h.live) < target and rng.random() < 0.25:
+                # a swap-removal on the way permutes the dense order
+                h.cycle(h.remove_ops(1, set()), zt())
+        for rnd in range(rng.choice([1, 1, 2])):
+            if not h.live:
+                break
+            chron = list(h.live)
+            r = rng.random()
+            key = rng.choice(chron[:max(1, len(chron) // 2)]) if r < 0.7 else rng.choice(chron[:-1] or chron)
+            del h.live[key]
+            ops, busy = ["del %d" % key], {key}
+            r = rng.random()
+            if r < 0.12:
+                ops += h.update_ops(1, busy)
+            elif r < 0.22:
+                more, _ = h.add_ops(1, busy)
+                ops += more
+            rng.shuffle(ops)
+            h.cycle(ops, zt())
+            # quiet cycles: the stale value, if any, must not be repaired by an unrelated re-evaluation
+            for _ in range(rng.randint(1, 3)):
+                r = rng.random()
+                if r < 0.35:
+                    h.cycle([], zt())
+                elif r < 0.55:
+                    h.cycle(["tick"], zt())
+                elif r < 0.7:
+                    h.cycle(["del %d" % rng.choice([9991, 9992])], zt())
+                elif r < 0.85:
+                    h.cycle(h.update_ops(1, set()), zt())
+                else:
+                    more, _ = h.add_ops(1)
+                    h.cycle(more, zt())
     elif scenario == "boundary":
         # sit on a capacity boundary 2^k and cross it back and forth
         b = rng.choice([1, 2, 4, 8, 16] if tier == "quick" else [2, 4, 8, 16, 32, 64])
@@ -370,6 +487,7 @@ def _spec(case, out):
         if w[0] == "c":
             i, nset, ndel, nupd = 1, 0, 0, 0
             before = len(live)
+            feats_cycle = set()
             skeys = {w[x + 1] for x in range(1, len(w)) if w[x] == "set" and x + 2 < len(w)}
             dkeys = {w[x + 1] for x in range(1, len(w)) if w[x] == "del" and x + 1 < len(w)}
             if kind == "tsd" and skeys & dkeys:
@@ -390,8 +508,10 @@ def _spec(case, out):
                         if k in live:
                             order = list(live)
                             pos = order.index(k)
-                            feats.add("remove-only" if len(order) == 1 else "remove-last" if pos == len(order) - 1
-                                      else "remove-first" if pos == 0 else "remove-middle")
+                            what = ("remove-only" if len(order) == 1 else "remove-last" if pos == len(order) - 1
+                                    else "remove-first" if pos == 0 else "remove-middle")
+                            feats.add(what)
+                            feats_cycle.add(what)
                             ndel += 1
                             del live[k]
                         else:
@@ -409,6 +529,17 @@ def _spec(case, out):
                     i += 1
             if zero not in ("none", "ts"):
                 zval = int(zero)
+            if kind == "tsd" and ndel == 1 and nset == 0 and nupd == 0 and before in (8, 16, 12, 14, 15, 32) and \
+                    "remove-last" not in feats_cycle:
+                feats.add("full-tree:remove-nontail-only@%d" % before)
+            if nset and nupd and not (before < 2 or any(before <= b < len(live) for b in (2, 4, 8, 16, 32, 64))):
+                feats.add("add+update-no-growth")
+            if ndel and nupd:
+                feats.add("remove+update-same-cycle")
+            ev = fo.get("ev")
+            if ev not in (None, "-"):
+                nev = 0 if ev == "[]" else ev.count(",") + 1
+                feats.add("node-evals/cycle:%s" % (nev if nev <= 3 else "4-7" if nev <= 7 else ">=8"))
             if nset > 1:
                 feats.add("multi-add-cycle")
             if ndel > 1:
@@ -456,6 +587,13 @@ def _spec(case, out):
                 bad.append("after the run the result is %s, the fold over the %d live elements is %s" % (got, n, exp))
             continue
         if undefined:
+            # one live element, a zero is supplied but has never ticked: combine(value, <no value>) is not defined.
+            # The generator never produces this (the zero ticks in cycle 0); when such a history is presented
+            # (replay / corpus) a VALID result is a stale aggregate of elements that are no longer live
+            got = fo.get("out")
+            if got not in (None, "none") and before >= 2:
+                bad.append("[C11-zero-unset] cycle %d: one live element and a zero input that has never ticked, but the "
+                           "result is still %s (the aggregate of the %d elements live before)" % (ncyc - 1, got, before))
             prev_exp = None
             continue
         got, rec = fo.get("out"), fo.get("rec")
@@ -486,8 +624,9 @@ def nontrivial(stream, case, out):
 
 
 def alarm_filter(stream, case, impl_out, model_out):
-    """Observable: the result value (`out`, recorded ticks) and error classes.  Tick/modified flags that the
-    model predicts by rule, leaf and combiner counts are diagnostics (model-internal drift)."""
+    """Observable: the result value (`out`, recorded ticks), the per-cycle multiset of combiner evaluations of the
+    logging node combiner (`ev`) and error classes.  Tick/modified flags that the model predicts by rule, leaf and
+    combiner counts are diagnostics (model-internal drift)."""
     notes, alarm = [], False
     if len(impl_out) != len(model_out):
         return True, ["line counts differ"]
@@ -505,6 +644,10 @@ def alarm_filter(stream, case, impl_out, model_out):
         elif fa.get("rec", "-") != "-" and fb.get("rec", "-") != "-" and fa.get("rec") != fb.get("rec"):
             alarm = True
             notes.append("line %d: rec %s vs %s" % (i, fa.get("rec"), fb.get("rec")))
+        elif fa.get("ev") != fb.get("ev"):
+            # the per-cycle multiset of combiner evaluations (operand pairs) of the logging node combiner
+            alarm = True
+            notes.append("line %d: combiner evaluations %s vs %s" % (i, fa.get("ev"), fb.get("ev")))
         else:
             notes.append("line %d: %s" % (i, ",".join(k for k in ("rec", "mod", "n", "comb", "ngc") if fa.get(k) != fb.get(k))))
     return alarm, notes
